@@ -177,6 +177,8 @@ def classify(rec, rd, res):
         found.append(("self-consistent:hidden-endpoint", {"edge": e}))
     for n in det["once"]:
         found.append(("once", {"node": n}))
+    for n in det.get("endMissing", []):
+        found.append(("complete:gate-to-END", {"gate": n}))
     if "ValidState" in res["failed"]:
         found.append(("state:invalid-expansion-state", {"expanded": rd["expanded"]}))
     return found
